@@ -342,9 +342,72 @@ def _check_against_reference(obs: dict[str, Any], layout: str, budget: int, line
             v.append(("step_failed_event_attempts", w, f"StepFailedEvent.attempts={attempts}, expected {want_attempts}"))
 
 
+def execute_recovered_then_wait_times_out(ex: Execution, scoped: bool, budget: int, with_retry: bool) -> tuple[Any, list[Any]]:
+    """a lineage that has used (part of) its recovery budget goes on to a step that waits with a timeout; nobody answers, the
+    TimeoutError makes that step fail for good: the failure is routed with the lineage's recovery count as it stands - a handler with
+    max_recoveries = budget is entered ``budget`` times in all along this lineage, then the run fails"""
+    from vmc.events import Resp, Work
+
+    with EngineExec(ex, RunConfig(allow_time=True)) as e:
+        entered: list[str] = []
+
+        async def first(self, ctx, ev, inv):  # noqa: ANN001
+            await gate(f"first#{getattr(ev, 'uid', 0)}")
+            if getattr(ev, "uid", 0) < budget:
+                raise ValueError(f"first fails on visit {getattr(ev, 'uid', 0)}")
+            return Work(uid=7)
+
+        async def gather(self, ctx, ev, inv):  # noqa: ANN001
+            r = await ctx.wait_for_event(Resp, waiter_id="g", timeout=5.0)
+            return StopEvent(result=f"answered:{r.uid}")
+
+        async def on_err(self, ctx, ev, inv):  # noqa: ANN001
+            entered.append(ev.step_name)
+            n = getattr(ev.input_event, "uid", 0)
+            return A(uid=n + 1)  # the lineage re-enters ``first``
+
+        kw: dict[str, Any] = {"max_recoveries": budget}
+        if scoped:
+            kw["for_steps"] = ["first", "gather"]
+        pol = retry_policy(wait=wait_fixed(0), stop=stop_after_attempt(2)) if with_retry else None
+
+        async def start(self, ctx, ev, inv):  # noqa: ANN001
+            return A(uid=0)
+
+        cls = make_workflow("RecoveredThenWait", [
+            make_step("start", [StartEvent], [A], start),
+            make_step("first", [A], [Work], first, retry_policy=pol),
+            make_step("gather", [Work], [StopEvent], gather, retry_policy=pol),
+            make_step("on_err", [StepFailedEvent], [A], on_err, decorator=catch_error, deco_kwargs=kw),
+        ])
+        wf = cls(timeout=None, runtime=MonRuntime(BasicRuntime()))
+        hd = wf.run(run_id="r1")
+        e.consume_stream(hd)
+        e.cfg.stop_when = lambda hh: hd.is_done() and hh.stream_done
+        e.drive()
+        out = task_outcome(hd._result_task)
+        v: list[Any] = []
+        w = {"layout": "scoped_owner" if scoped else "wildcard", "failed_step_waited_with_a_timeout": True, "disable_validation": False,
+             "failed_step_is_handler": False}
+        desc = f"budget={budget} retry={with_retry} scoped={scoped} schedule {ex.labels}"
+        if len(entered) != budget:
+            v.append(("handler_entered_beyond_budget" if len(entered) > budget else "routed_to_wrong_handler", w,
+                      f"{desc}: handler entered for {entered}, the lineage's budget is {budget}"))
+        if out[0] != "exception" or "Timed out" not in str(out[1]):
+            v.append(("run_outcome_after_exhausted_budget", w, f"{desc}: run ended {out}, expected the waiting step's TimeoutError"))
+        return {"entered": entered, "_metrics": {"max_concurrency": 1}}, v
+
+
 def programs(tier: str) -> list[Program]:
     q = tier == "quick"
     ps = []
+    for scoped in (False, True):
+        for budget in ((1,) if q else (1, 2)):
+            for with_retry in (False, True):
+                ps.append(Program(f"recovered_then_wait_times_out(scoped={scoped};budget={budget};retry={with_retry})",
+                                  {"layout": "recovered_then_wait", "budget": budget, "scoped": scoped, "retry": with_retry},
+                                  (lambda ex, scoped=scoped, budget=budget, with_retry=with_retry:
+                                   execute_recovered_then_wait_times_out(ex, scoped, budget, with_retry)), max_dev=3))
     for layout in LAYOUTS:
         for budget in ((1, 2) if q else (1, 2, 3)):
             for lineages in ((1, 2) if layout in ("wildcard", "scoped_owner", "scoped_other+wildcard") else (1,)):
